@@ -64,6 +64,8 @@ Verdict(t) ==
   IF t.slab.exc # "" THEN "REJECT SlabRaised" ELSE
   IF t.slab.off THEN "REJECT SlabOnGrid" ELSE
   IF ~SlabOK(t) THEN "REJECT Slab" ELSE
+  \* asked again after exports and other queries on the same object, the unit cell is reported exactly as before
+  IF t.uc.again # "same" THEN "REJECT Repeatable" ELSE
   IF t.applied.exc # "" \/ t.applied.off \/ Applied(t) # ApplyOps(t.ops, t.asym, N) THEN "ACCEPT drift=ApplyOps" ELSE
   IF small /\ [i \in DOMAIN rows |-> [asym |-> rows[i].asym, op |-> rows[i].op, p |-> rows[i].p, occ |-> rows[i].occ]]
        # UnitCellAtoms(t.ops, t.asym, N) THEN "ACCEPT drift=RowOrder" ELSE
